@@ -431,6 +431,12 @@ func readRefs(ctx context.Context, w *world, f *storeFactory, names []int) ([][2
 }
 
 func Run(raw json.RawMessage) (any, error) {
+	var probe struct {
+		SQL bool `json:"sql"`
+	}
+	if err := json.Unmarshal(raw, &probe); err == nil && probe.SQL {
+		return runSQL(raw)
+	}
 	var c Case
 	if err := json.Unmarshal(raw, &c); err != nil {
 		return nil, err
